@@ -682,3 +682,10 @@ def every_operand_is_consumed(ctx):
 @rule("R12.14", "C12", "printing an operation consumes every operand that owns an IL variable - also when a literal decides the result or the same node stands in two positions", min_instances=60)
 def r12_14(ctx):
     every_operand_is_consumed(ctx)
+
+
+@rule("R12.15", "C12", "a register that is only written gets no READ_REG of its own: an assignment makes an operand without access letter (explicit, alias) write-only", min_instances=5)
+def r12_15(ctx):
+    from .c07 import write_property_table
+
+    write_property_table(ctx)
